@@ -54,7 +54,10 @@ def scenario_files(u, root: str) -> dict:
     if sec:        # a second, unrelated package re-exports the class by name too
         for j in range(1, len(sec)):
             files.setdefault("/".join([sid, *sec[:j], "__init__.py"]), "")
-        files["/".join([sid, *sec, "__init__.py"])] = f"from {'.'.join([root, sid, *tpath, n['stem']])} import {n['decl']}\n"
+        if t["reexp"]["form"] == "module":     # ... as a whole module, like the first re-exporter
+            files["/".join([sid, *sec, "__init__.py"])] = f"from {'.'.join([root, sid, *tpath])} import {n['stem']}\n"
+        else:
+            files["/".join([sid, *sec, "__init__.py"])] = f"from {'.'.join([root, sid, *tpath, n['stem']])} import {n['decl']}\n"
         # a package is only analysed when it contains a module of its own
         files["/".join([sid, *sec, "fillmod.py"])] = f"def fill{topo.sfx(u['id'])}() -> int:\n    ...\n"
     h = "holder" + topo.sfx(u["id"])
